@@ -16,6 +16,8 @@ EXPLANATION = (
     "initialises a secondary in place (compared by truth table).")
 NOT_DECIDED = "index arithmetic of the scans/partitions, counter values, termination"
 
+TECHNIQUE = ('ownership and effect-set analysis over the call graph; typestate of status setters by enumerator argument and action order; truth-table comparison of two branch predicates extracted from the CFG; throwing-guard dominance')
+
 UNITS = [
     "src/celeritas/track/ExtendFromPrimariesAction.cc",
     "src/celeritas/track/ExtendFromSecondariesAction.cc",
